@@ -231,6 +231,7 @@ func (cs *busCase) handle(rid int, lit int, ctx context.Context, e busEvt, ty in
 	cs.runBody(cs.bodies[cs.bodyOf(rid)])
 }
 
+//go:noinline
 func plainLit[T busEvt](cs *busCase, ty, hid, rid int) func(T) {
 	switch hid {
 	case 0:
@@ -248,6 +249,7 @@ func plainLit[T busEvt](cs *busCase, ty, hid, rid int) func(T) {
 	}
 }
 
+//go:noinline
 func ctxLit[T busEvt](cs *busCase, ty, hid, rid int) func(context.Context, T) {
 	switch hid {
 	case 6:
